@@ -259,3 +259,260 @@ def rule_R1_c(ctx):
                 return cs
             c_round_check(ctx, factory, fn, "%s:%s" % (os.path.basename(path), fn), path)
     ctx.floor("C SIMD round functions", n, 6)
+
+
+# ------------------------------------------------------------------ K4: lane counters ----
+import lanecalc  # noqa: E402
+
+C_LOAD_COUNTERS = [("c/blake3_sse2.c", ("-msse2",), "load_counters", 4), ("c/blake3_sse41.c", ("-msse4.1",), "load_counters", 4),
+                   ("c/blake3_avx2.c", ("-mavx2",), "load_counters", 8), ("c/blake3_avx512.c", ("-mavx512f", "-mavx512vl"), "load_counters4", 4),
+                   ("c/blake3_avx512.c", ("-mavx512f", "-mavx512vl"), "load_counters8", 8), ("c/blake3_avx512.c", ("-mavx512f", "-mavx512vl"), "load_counters16", 16)]
+
+
+def rule_K4_c(ctx):
+    for path, mflags, fn, lanes in C_LOAD_COUNTERS:
+        t = _rc.tu(path, (), extra_args=mflags, filt="load_counters")
+        f = t.funcs.get(fn)
+        if f is None:
+            raise MissingAnchor("%s in %s" % (fn, path))
+        ok, detail, n = lanecalc.decide_load_counters(f, lanes)
+        ctx.ob(ok, "lane-counters:%s:%s" % (os.path.basename(path), fn), "%s:%s" % (path, f["line"]), detail)
+
+
+def rule_K4_rust(ctx, F):
+    n = 0
+    for mod, lanes, setter in (("sse2", 4, "set4"), ("sse41", 4, "set4"), ("avx2", 8, "set8")):
+        fn = F.fn("%s::load_counters" % mod)
+        if fn is None:
+            continue
+        n += 1
+        e = val(fn.expr_local(0))
+        ok = e[0] == "tuple" and len(e[1]) == 2
+        detail = "load_counters returns %s" % show(e)[:120]
+        if ok:
+            MASK = W("mask")
+            for which, helper in ((0, "counter_low"), (1, "counter_high")):
+                v = e[1][which]
+                if not (v[0] == "call" and v[1] == "%s::%s" % (mod, setter) and len(v[2]) == lanes):
+                    ok = False
+                    detail = "%s vector is %s" % (helper, show(v)[:100])
+                    break
+                for i, lane in enumerate(v[2]):
+                    want = P.call(helper, P.bin("Add", P.arg("counter"), P.bin("BitAnd", MASK, P.const(i))))
+                    m = unify(want, lane)
+                    if m is None:
+                        ok = False
+                        detail = "lane %d of the %s vector is %s ; required %s(counter + (mask & %d))" % (i, helper, show(lane)[:100], helper, i)
+                        break
+                if not ok:
+                    break
+        if ok:
+            # mask = all ones iff increment_counter.yes()
+            ml = [l for l in range(len(fn.locals)) if fn.names.get(l) == "mask"]
+            alts = {}
+            for b, gs, ex in (local_defs_with_guards(fn, ml[0]) if ml else []):
+                for c, tr in gs:
+                    if c == P.call("IncrementCounter::yes", ("arg", 2, "increment_counter")) or (c[0] == "call" and c[1] == "IncrementCounter::yes"):
+                        alts[tr] = ex
+            t = alts.get(True, ("?",))
+            all_ones = (t[0] == "const" and t[2] in ((1 << 64) - 1, -1)) or (t[0] == "un" and t[1] == "Not" and t[2][0] == "const" and t[2][2] == 0)
+            okm = all_ones and alts.get(False, ("?",))[0] == "const" and alts[False][2] == 0
+            if not okm:
+                ok, detail = False, "mask is %s ; required !0 when increment_counter.yes() else 0" % {k: show(v) for k, v in alts.items()}
+        ctx.ob(ok, "lane-counters:rust_%s.rs" % mod, fn.loc, detail if not ok else "lane i = counter_low/high(counter + (mask & i)), i = 0..%d ascending, mask = !0 iff increment" % (lanes - 1))
+    if F.cfg_flavour() in ("pure",):
+        ctx.floor("Rust load_counters functions", n, 3)
+
+
+# ------------------------------------------------------------------ K5: transposed state rows ----
+C_STATE_FNS = [("c/blake3_sse2.c", ("-msse2",), "blake3_hash4_sse2", "load_counters", "hash"),
+               ("c/blake3_sse41.c", ("-msse4.1",), "blake3_hash4_sse41", "load_counters", "hash"),
+               ("c/blake3_avx2.c", ("-mavx2",), "blake3_hash8_avx2", "load_counters", "hash"),
+               ("c/blake3_avx512.c", ("-mavx512f", "-mavx512vl"), "blake3_hash4_avx512", "load_counters4", "hash"),
+               ("c/blake3_avx512.c", ("-mavx512f", "-mavx512vl"), "blake3_xof4_avx512", "load_counters4", "xof"),
+               ("c/blake3_avx512.c", ("-mavx512f", "-mavx512vl"), "blake3_hash8_avx512", "load_counters8", "hash"),
+               ("c/blake3_avx512.c", ("-mavx512f", "-mavx512vl"), "blake3_xof8_avx512", "load_counters8", "xof"),
+               ("c/blake3_avx512.c", ("-mavx512f", "-mavx512vl"), "blake3_hash16_avx512", "load_counters16", "hash"),
+               ("c/blake3_avx512.c", ("-mavx512f", "-mavx512vl"), "blake3_xof16_avx512", "load_counters16", "xof")]
+
+
+def _c_all_stmts(stmts):
+    for s in stmts:
+        yield s
+        for x in s:
+            if isinstance(x, list):
+                yield from _c_all_stmts(x)
+
+
+def _cshow(e):
+    if not isinstance(e, tuple):
+        return str(e)
+    if e[0] == "var":
+        return e[1]
+    if e[0] == "int":
+        return str(e[1])
+    if e[0] == "index":
+        return "%s[%s]" % (_cshow(e[1]), _cshow(e[2]))
+    if e[0] == "call":
+        return "%s(%s)" % (e[1] if isinstance(e[1], str) else _cshow(e[1]), ", ".join(_cshow(a) for a in e[2]))
+    return "%s(...)" % e[0]
+
+
+def rule_K5_c(ctx):
+    """rows of the transposed state: v[0..7]=h_vecs (=set1(key|cv[i])), v[8..11]=set1(IV[i]),
+    v[12],v[13] = the (lo, hi) outputs of load_counters*(counter, increment_counter|true), v[14]=set1(block length),
+    v[15]=set1(flags)"""
+    for path, mflags, fn, lc, kind in C_STATE_FNS:
+        t = _rc.tu(path, (), extra_args=mflags, filt=fn)
+        f = t.funcs.get(fn)
+        if f is None:
+            raise MissingAnchor("%s in %s" % (fn, path))
+        decls, lcs = {}, []
+        for s in _c_all_stmts(f["body"]):
+            if s[0] == "decl":
+                decls.setdefault(s[1], []).append(s)
+            if s[0] == "expr" and s[1][0] == "call" and isinstance(s[1][1], str) and s[1][1].startswith("load_counters"):
+                lcs.append(s[1])
+        where = "%s:%s" % (path, f["line"])
+        inst = "state-rows:%s" % fn
+
+        def isvar(e, n):
+            return isinstance(e, tuple) and e[0] == "var" and e[1] == n
+
+        def set1_of(e):
+            return e[2][0] if isinstance(e, tuple) and e[0] == "call" and isinstance(e[1], str) and re.fullmatch(r"set1(_\d+)?", e[1]) and len(e[2]) == 1 else None
+
+        def strip(e):
+            while isinstance(e, tuple) and e[0] == "cast":
+                e = e[1]
+            return e
+        bad = None
+        v = decls.get("v", [])
+        if len(v) != 1 or not v[0][3] or v[0][3][0] != "init" or len(v[0][3][1]) != 16:
+            ctx.ob(False, inst, where, "no single 16-row initialiser of the state array v")
+            continue
+        rows = v[0][3][1]
+        hv = decls.get("h_vecs", [])
+        if len(hv) != 1 or not hv[0][3] or hv[0][3][0] != "init" or len(hv[0][3][1]) != 8:
+            ctx.ob(False, inst, where, "no single 8-row initialiser of h_vecs")
+            continue
+        src = "key" if kind == "hash" else "cv"
+        for i, e in enumerate(hv[0][3][1]):
+            a = strip(set1_of(e))
+            if not (a and a[0] == "index" and isvar(a[1], src) and a[2] == ("int", i)):
+                bad = "h_vecs[%d] is %s ; required set1(%s[%d])" % (i, _cshow(e), src, i)
+        if len(lcs) != 1 or lcs[0][1] != lc:
+            bad = "expected exactly one call of %s, found %s" % (lc, [c[1] for c in lcs])
+        else:
+            a = lcs[0][2]
+            incr_ok = isvar(a[1], "increment_counter") if kind == "hash" else a[1] == ("int", 1)
+            if not (len(a) == 4 and isvar(a[0], "counter") and incr_ok and a[2][0] == "un" and a[2][1] == "&" and a[3][0] == "un" and a[3][1] == "&"):
+                bad = "%s is called as %s ; required (counter, %s, &lo, &hi)" % (lc, _cshow(lcs[0]), "increment_counter" if kind == "hash" else "true")
+            else:
+                lo_name, hi_name = a[2][2][1], a[3][2][1]
+        if bad is None:
+            for i in range(16):
+                e = rows[i]
+                if i < 8:
+                    ok = e[0] == "index" and isvar(e[1], "h_vecs") and e[2] == ("int", i)
+                    want = "h_vecs[%d]" % i
+                elif i < 12:
+                    a = strip(set1_of(e))
+                    ok = bool(a) and a[0] == "index" and isvar(a[1], "IV") and a[2] == ("int", i - 8)
+                    want = "set1(IV[%d])" % (i - 8)
+                elif i == 12:
+                    ok, want = isvar(e, lo_name), lo_name
+                elif i == 13:
+                    ok, want = isvar(e, hi_name), hi_name
+                else:
+                    nm = e[1] if e[0] == "var" else None
+                    d = decls.get(nm, [None])[0] if nm else None
+                    a = strip(set1_of(d[3])) if d and d[3] else None
+                    if i == 14:
+                        ok = bool(a) and (isvar(a, "block_len") if kind == "xof" else (a == ("int", 64) or isvar(a, "BLAKE3_BLOCK_LEN")))
+                        want = "set1(block length)"
+                    else:
+                        ok = bool(a) and isvar(a, "block_flags" if kind == "hash" else "flags")
+                        want = "set1(%s)" % ("block_flags" if kind == "hash" else "flags")
+                    if not ok:
+                        e = d[3] if d and d[3] else e
+                if not ok:
+                    bad = "v[%d] is %s ; required %s" % (i, _cshow(e), want)
+                    break
+        ctx.ob(bad is None, inst, where, bad or "v = [h_vecs[0..8], set1(IV[0..4]), counter lo, counter hi, block length, flags]; h_vecs = set1(%s[i]); %s(counter, %s)" % (src, lc, "increment_counter" if kind == "hash" else "true"))
+    ctx.floor("C transposed-state initialisers", len(C_STATE_FNS), 9)
+
+
+def rule_K5_rust(ctx, F):
+    n = 0
+    for mod, fnname, lanes in (("sse2", "hash4", 4), ("sse41", "hash4", 4), ("avx2", "hash8", 8)):
+        fn = F.fn("%s::%s" % (mod, fnname))
+        if fn is None:
+            continue
+        n += 1
+        inst = "state-rows:rust_%s.rs:%s" % (mod, fnname)
+        vl = [l for l in range(len(fn.locals)) if fn.names.get(l) == "v"]
+        hl = [l for l in range(len(fn.locals)) if fn.names.get(l) == "h_vecs"]
+        bad = None
+        e = val(fn.init_expr(vl[0])) if vl else None
+        h = val(fn.init_expr(hl[0])) if hl else None
+        if not (e and e[0] == "array" and len(e[1]) == 16 and h and h[0] == "array" and len(h[1]) == 8):
+            ctx.ob(False, inst, fn.loc, "no 16-row state array v / 8-row h_vecs initialiser found")
+            continue
+        set1 = "%s::set1" % mod
+
+        def idx_of(x, basepred):
+            return x[2][0][1][2] if (x[0] == "path" and basepred(x[1]) and len(x[2]) == 1 and x[2][0][0] == "idx" and x[2][0][1][0] == "const") else None
+        for i, x in enumerate(h[1]):
+            a = x[2][0] if x[0] == "call" and x[1] == set1 else ("?",)
+            if idx_of(a, lambda b: b[0] == "arg" and b[2] == "key") != i:
+                bad = "h_vecs[%d] is %s ; required set1(key[%d])" % (i, show(x)[:80], i)
+        lcall = ("call", "%s::load_counters" % mod, (("arg", 4, "counter"), ("arg", 5, "increment_counter")))
+        for i, x in enumerate(e[1]):
+            if bad:
+                break
+            if i < 8:
+                ok = idx_of(x, lambda b: b[0] == "built" and b[1] == hl[0]) == i
+                want = "h_vecs[%d]" % i
+            elif i < 12:
+                a = x[2][0] if x[0] == "call" and x[1] == set1 else ("?",)
+                ok = idx_of(a, lambda b: b[0] == "const" and b[1] == "IV") == i - 8
+                want = "set1(IV[%d])" % (i - 8)
+            elif i < 14:
+                ok = x == ("path", lcall, (str(i - 12),))
+                want = "load_counters(counter, increment_counter).%d" % (i - 12)
+            elif i == 14:
+                ok = x == ("call", set1, (("cast", ("const", "BLOCK_LEN", 64), "u32"),))
+                want = "set1(BLOCK_LEN as u32)"
+            else:
+                a = x[2][0] if x[0] == "call" and x[1] == set1 else ("?",)
+                ok = a[0] == "cast" and a[1][0] in ("phi", "local") and a[1][-1] == "block_flags"
+                want = "set1(block_flags as u32)"
+            if not ok:
+                bad = "v[%d] is %s ; required %s" % (i, show(x)[:100], want)
+        ctx.ob(bad is None, inst, fn.loc, bad or "v = [h_vecs[0..8], set1(IV[0..4]), load_counters(counter, increment_counter).0/.1, set1(BLOCK_LEN), set1(block_flags)]")
+    # helper definitions used by load_counters
+    for name, want in (("counter_low", ("cast", ("arg", 1, "counter"), "u32")),
+                       ("counter_high", ("cast", ("bin", "Shr", ("arg", 1, "counter"), ("const", None, 32)), "u32"))):
+        fn = F.fn(name)
+        if fn is None:
+            raise MissingAnchor(name)
+        got = val(fn.expr_local(0))
+        ctx.ob(got == want, "helper:%s" % name, fn.loc, "%s returns %s" % (name, show(got)[:80]))
+    for mod, setter, intr, lanes in (("sse2", "set4", "_mm_setr_epi32", 4), ("sse41", "set4", "_mm_setr_epi32", 4), ("avx2", "set8", "_mm256_setr_epi32", 8)):
+        fn = F.fn("%s::%s" % (mod, setter))
+        if fn is None:
+            continue
+        got = val(fn.expr_local(0))
+        ok = got[0] == "call" and len(got[2]) == lanes
+        if ok:
+            order = [a[1][1] if a[0] == "cast" and a[1][0] == "arg" else (a[1] if a[0] == "arg" else None) for a in got[2]]
+            if got[1].endswith("setr_epi32"):
+                ok = order == list(range(1, lanes + 1))
+            elif got[1].endswith("set_epi32"):
+                ok = order == list(range(lanes, 0, -1))
+            else:
+                ok = False
+        ctx.ob(ok, "helper:%s::%s" % (mod, setter), fn.loc, "%s is %s ; required lane i = argument i" % (setter, show(got)[:140]))
+    if F.cfg_flavour() in ("pure",):
+        ctx.floor("Rust transposed-state initialisers", n, 3)
